@@ -269,3 +269,7 @@ with msteps_trees (l : trees) : nat :=
 
 Definition machine_scripted (fuel : nat) (root : tree) (sc : script) : mresult unit :=
   visit_machine unit (scripted sc) fuel root tt.
+
+(* visit(root, ParallelVisitor(visitors)) on the machine *)
+Definition machine_parallel (fuel : nat) (root : tree) (scs : list script) : mresult pstate :=
+  visit_machine pstate (parallel scs) fuel root (map (fun _ => SkNone) scs, []).
